@@ -138,6 +138,8 @@ func Handle(q *Req) (r Resp) {
 	src := q.Source
 	if !q.HasSrc {
 		src = nil
+	} else if src == nil {
+		src = []byte{} // omitempty dropped an empty source
 	}
 	handler := ddperror.Handler(collect)
 	if q.CheckRender {
